@@ -526,24 +526,31 @@ def c13_rules(m):
         if isinstance(n, ast.Assign) and A.text(n.targets[0]) == "filename":
             fname_expr = n.value
     ev = evaluator(m, RF)
-    for text, want in (("include 'a.inc'", "a.inc"), ('INCLUDE "dir/b.h"', "dir/b.h"), ("  Include   'c d.f90'  ", "c d.f90"),
-                       ("include'x'", "x")):
+    samples = (("include 'a.inc'", "a.inc"), ('INCLUDE "dir/b.h"', "dir/b.h"), ("  Include   'c d.f90'  ", "c d.f90"), ("include'x'", "x"),
+               ('INCLUDE"y.h"', "y.h"))
+    # 1. recognition (independent of how the name is extracted)
+    for text, want in samples:
         r.instances += 1
         ok = rx(text) is not None
-        got = None
-        if ok and fname_expr is not None:
-            try:
-                class It:
-                    pass
-                got = ev.ev(_subst_item_line(fname_expr), {"__line__": text.strip()})
-                ok = got == want
-            except (PE.Unsupported, PE.PyRaise) as err:
-                r.error("cannot interpret the file-name expression `%s` (%s)" % (A.text(fname_expr), err))
-                break
+        r.ob(ok, "%r recognised as an INCLUDE line" % text)
+        if not ok:
+            r.fail("include|accept|%s" % text, "the INCLUDE line %r is not recognised by the reader (the parser's Include_Stmt accepts it, so the "
+                   "file is never read and an Include_Stmt node stays in the tree)" % text, m.loc(nx))
+    # 2. the file name is the text between the quotes
+    for text, want in samples:
+        if rx(text) is None or fname_expr is None:
+            continue
+        r.instances += 1
+        try:
+            mo = rx(text)
+            got = ev.ev(_subst_item_line(fname_expr), {"__line__": text.strip(), "include_line": mo, "match": mo, "m": mo})
+        except (PE.Unsupported, PE.PyRaise) as err:
+            r.error("cannot interpret the file-name expression `%s` (%s)" % (A.text(fname_expr), err))
+            break
+        ok = got == want
         r.ob(ok, "%r -> file %r" % (text, got))
         if not ok:
-            r.fail("include|accept|%s" % text, "the INCLUDE line %r is not recognised, or its file name is extracted as %r instead of %r"
-                   % (text, got, want), m.loc(nx))
+            r.fail("include|name|%s" % text, "the file name of the INCLUDE line %r is extracted as %r instead of %r" % (text, got, want), m.loc(nx))
     for text in ("include", "include 'a' x", "include a.inc", "include abc", "x = include 'a'", "include ''", "included 'a'"):
         r.instances += 1
         ok = rx(text) is None or text == "included 'a'" and False
